@@ -245,6 +245,9 @@ def canon(text, who, addr=None, length=None, opsize16=False):
     # int 3 (one-byte form) is int3
     if mn == 'int' and len(ops) == 1 and ops[0] == ('imm', 3) and who in ('miasm', 'line') and length == 1:
         mn, ops = 'int3', []
+    # 'int3' (cc) and 'int 3' (cd 03) are two encodings of one assembly instruction: GNU as turns 'int $3' into cc
+    if mn == 'int3':
+        mn, ops = 'int', [('imm', 3)]
     # implicit operands an input line may omit
     if who == 'line':
         if mn in ('shld', 'shrd') and len(ops) == 2:
